@@ -59,6 +59,7 @@ type SpecFunc struct {
 }
 
 type FuncContract struct {
+	DeclPkg  string // package of the contract file that declares it
 	Pkg      string // import path
 	Name     string // "F" or "Recv.F"
 	Extern   bool   // contract for a function outside the repo or outside reach: assumed
@@ -87,7 +88,18 @@ type Lemma struct {
 	Line   int
 }
 
+type UFunc struct {
+	Pkg    string
+	Name   string
+	Params []SpecParam
+	Result string
+	File   string
+	Line   int
+}
+
 type ContractSet struct {
+	UFuncs  map[string]*UFunc
+	Axioms  []*Lemma
 	Funcs   map[string]*FuncContract // key: pkgpath + "." + name
 	Specs   map[string]*SpecFunc     // key: pkgpath + "." + name  and also bare name per package
 	Lemmas  []*Lemma
@@ -201,7 +213,7 @@ func loadContracts(root string) (*ContractSet, error) {
 	if err != nil {
 		return nil, err
 	}
-	cs := &ContractSet{Funcs: map[string]*FuncContract{}, Specs: map[string]*SpecFunc{}, PkgDirs: map[string]string{}}
+	cs := &ContractSet{Funcs: map[string]*FuncContract{}, Specs: map[string]*SpecFunc{}, PkgDirs: map[string]string{}, UFuncs: map[string]*UFunc{}}
 	for _, f := range files {
 		if err := cs.parseFile(root, f); err != nil {
 			return nil, err
@@ -274,7 +286,7 @@ func (cs *ContractSet) parseFile(root, file string) error {
 				return bad(c, "missing function name")
 			}
 			props, others := parseProps(fields[1:])
-			fc := &FuncContract{Pkg: pkg, Name: fields[0], Props: props, Loops: map[int]*LoopSpec{}, File: file, Line: c.line}
+			fc := &FuncContract{DeclPkg: pkg, Pkg: pkg, Name: fields[0], Props: props, Loops: map[int]*LoopSpec{}, File: file, Line: c.line}
 			if kw == "extern" {
 				fc.Extern = true
 				// extern names are fully qualified: path/to/pkg.Func or path/to/pkg.Recv.Func
@@ -410,7 +422,21 @@ func (cs *ContractSet) parseFile(root, file string) error {
 			sf := &SpecFunc{Rec: kw == "rec", Pkg: pkg, Name: name, Params: params, Result: resT, Body: e, Src: src, File: file, Line: c.line}
 			cs.Specs[pkg+"."+name] = sf
 			cur = nil
-		case "lemma":
+		case "ufunc":
+			// ufunc name(params) R   — uninterpreted specification function
+			op := strings.Index(rest, "(")
+			cp := strings.LastIndex(rest, ")")
+			if op < 0 || cp < op {
+				return bad(c, "bad ufunc")
+			}
+			params, err := parseSpecParams(rest[op+1 : cp])
+			if err != nil {
+				return bad(c, "%v", err)
+			}
+			name := strings.TrimSpace(rest[:op])
+			cs.UFuncs[pkg+"."+name] = &UFunc{Pkg: pkg, Name: name, Params: params, Result: strings.TrimSpace(rest[cp+1:]), File: file, Line: c.line}
+			cur = nil
+		case "lemma", "axiom":
 			// lemma name [props X] : (x T, y U) expr
 			colon := strings.Index(rest, ":")
 			if colon < 0 {
@@ -449,7 +475,13 @@ func (cs *ContractSet) parseFile(root, file string) error {
 			if err != nil {
 				return err
 			}
-			cs.Lemmas = append(cs.Lemmas, &Lemma{Pkg: pkg, Name: head[0], Props: props, Params: params, Body: e, Src: body, File: file, Line: c.line})
+			lm := &Lemma{Pkg: pkg, Name: head[0], Props: props, Params: params, Body: e, Src: body, File: file, Line: c.line}
+			if kw == "axiom" {
+				cs.Axioms = append(cs.Axioms, lm)
+				cs.Assumes = append(cs.Assumes, "axiom "+lm.Name+" ("+strings.TrimPrefix(pkg, modulePath+"/")+"): "+body)
+			} else {
+				cs.Lemmas = append(cs.Lemmas, lm)
+			}
 			cur = nil
 		case "assume":
 			cs.Assumes = append(cs.Assumes, rest)
